@@ -34,8 +34,11 @@ pub fn run(args: &Args) {
         let mut o = Outcome::default();
         let mut rng = Rng::new(seed, k);
         let kind = ["sheet", "workbook", "revisions"][(k % 3) as usize];
-        let password: String = match rng.below(10) {
+        let password: String = match rng.below(12) {
             0 => String::new(),
+            // white space and line ends at the edges are part of the password
+            10 => format!("s3cret-{}{}", k, *rng.pick(&["\r\n", "\n", "\r", " ", "\t"])),
+            11 => format!("{}lead-{}", *rng.pick(&[" ", "\n", "\u{3000}", "\t "]), k),
             // longer than 255 UTF-16 units (the hash algorithm has no length limit)
             7 => format!("{}{}", "long-é".repeat(rng.range(43, 60) as usize), k),
             8 => "😀".repeat(rng.range(126, 140) as usize),
